@@ -1,9 +1,8 @@
 (* C05 — the checker on the model, stage 8: clause S3.
-   (A) S3 is FALSE on the model outside the late-claim class once more than B = 64 threads push
-       concurrently: witness with 67 threads - 64 completed pushes resident, all 64 slots of the
-       successor block claimed and unpublished, a fresh head - in which is_empty returns true.
-       This is the CODE (is_empty inspects only the head block and its successor; the model is
-       faithful and C05_is_empty_sound states the bound); so wf must include "at most B threads".
+   (A) Regression for defect C05-is-empty-lookback-one-block (fixed by 0248974): with 67 threads - 64
+       completed pushes resident, all 64 slots of the successor block claimed and unpublished, a
+       fresh head - the is_empty of the code before the fix (head block and ONE successor) returned
+       true; the chain-walking is_empty returns false.
    (B) A racing scheduled example inside the hypotheses: spec_ok = true.
    (C) S3 for data_with calls (snapshot completeness on trace positions) on the model's run of
        every case whose programs contain no clear_with, when the run is done.                    *)
@@ -11,7 +10,7 @@ From Coq Require Import List NArith Bool Arith Lia.
 Import ListNotations.
 Require Import MV.Common.Interleave MV.Common.InterleaveTrace MV.C05.Model MV.C05.Spec MV.C05.Exec.
 Require Import MV.C05.ProofsSeq MV.C05.ProofsInv MV.C05.ProofsCor MV.C05.ProofsUniq MV.C05.ProofsCons MV.C05.ProofsProg
-               MV.C05.ProofsSnap MV.C05.ProofsOrder MV.C05.ProofsSpec MV.C05.ProofsTrace1 MV.C05.ProofsTrace2 MV.C05.ProofsTrace3
+               MV.C05.ProofsSnap MV.C05.ProofsEmpty MV.C05.ProofsOrder MV.C05.ProofsSpec MV.C05.ProofsTrace1 MV.C05.ProofsTrace2 MV.C05.ProofsTrace3
                MV.C05.ProofsTrace4 MV.C05.ProofsTrace6 MV.C05.ProofsTrace7.
 Local Open Scope nat_scope.
 
@@ -26,11 +25,17 @@ Definition many_sched : list N :=
   ++ [66; 66; 66; 66; 66]%N.
 Definition many_case : case := (many_progs, many_sched).
 
-Lemma is_empty_true_beyond_B_threads :
+(* before fix 0248974 (one look-back, ProofsEmpty.step_lookback1) is_empty answered TRUE on this schedule
+   although 64 completed pushes were resident; the code after the fix answers FALSE and the whole
+   checker accepts the run *)
+Lemma is_empty_beyond_B_threads_refuted_before_fix :
   length (fst many_case) = 67 /\ known_class many_case = None /\
+  (let cf := fst (exec_full (step_lookback1 BS) site rr_fuel (init_config (progs_of many_case)) (map N.to_nat (snd many_case))) in
+   option_map results (nth_error (snd cf) 66) = Some [REmpty true] /\
+   length (concat (final_data BS true true (fst cf))) = 129) /\
   (let '(_, rss, done, final, _) := run_case many_case in
-   nth 66 rss [] = [REmpty true] /\ done = true /\ length (concat final) = 129) /\
-  spec_ok many_case (run_case many_case) = false.
+   nth 66 rss [] = [REmpty false] /\ done = true /\ length (concat final) = 129) /\
+  spec_ok many_case (run_case many_case) = true.
 Proof. vm_compute. repeat split; reflexivity. Qed.
 
 (* ---- (B) thread 0 pushes 65 values (crossing the block boundary); is_empty runs inside the
